@@ -56,7 +56,8 @@ MUTANTS = [
     ("trackxyz-ignores-param-id", EL, 'offset = g2o_params_or_none[("PARAMS_SE3OFFSET", offset_id)].value', 'offset = list(g2o_params_or_none.values())[-1].value if len(g2o_params_or_none) > 1 else g2o_params_or_none[("PARAMS_SE3OFFSET", offset_id)].value', ["C14"]),
     ("stop-after-first-junk", G, '                    _LOGGER.warning("Line not supported -- \'%s\'", line.rstrip())', '                    _LOGGER.warning("Line not supported -- \'%s\'", line.rstrip())\n                    if line.startswith("FIX"):\n                        break', ["C14"]),
     ("edge-se2-xy-parse-offbyone", EL, "information = upper_triangular_matrix_to_full_matrix(arr[2:], 2)\n", "information = upper_triangular_matrix_to_full_matrix(arr[2:], 2).T * np.array([[1.0, 1.0], [1.0 + (arr[3] < -50), 1.0]])\n", ["C14"]),
-    ("numdiff-no-restore", BE, "            self.vertices[vertex_index].pose = p0.copy()\n", "            pass\n", ["C15", "C16"]),
+    ("numdiff-no-restore", BE, "            self.vertices[vertex_index].pose = p0\n", "            pass\n", ["C15", "C16"]),
+    ("numdiff-restores-a-copy (F7 reverted)", BE, "            self.vertices[vertex_index].pose = p0\n", "            self.vertices[vertex_index].pose = p0.copy()\n", ["C15"]),
     ("numdiff-step-1e-3", BE, "_NUMERICAL_DIFFERENTIATION_EPSILON = 1e-6", "_NUMERICAL_DIFFERENTIATION_EPSILON = 1e-3", ["C16"]),
     ("numdiff-first-two-vertices", BE, "return [self._calc_jacobian(err, v.pose.COMPACT_DIMENSIONALITY, i) for i, v in enumerate(self.vertices)]", "return [self._calc_jacobian(err, v.pose.COMPACT_DIMENSIONALITY, i) if i < 2 else np.zeros(err.shape + (v.pose.COMPACT_DIMENSIONALITY,)) for i, v in enumerate(self.vertices)]", ["C16", "C03"]),
     ("equals-absolute-norm", BP, "return np.linalg.norm(self.to_array() - other.to_array()) / max(np.linalg.norm(self.to_array()), tol) < tol", "return np.linalg.norm(self.to_array() - other.to_array()) < tol", ["C17"]),
